@@ -209,7 +209,7 @@ class FuncGen:
             self.f('builtin_call')
             return r.choice(['ord(%s[0])' % self.expr('str', d), 'int(%s)' % self.expr('bool', d),
                              'round(%s)' % self.expr('float', d), 'divmod(%s, %s)[1]' % (a(), a()),
-                             'pow(%s, 2)' % a(), '(%s).bit_length()' % a(), 'hash(%s)' % a()])
+                             'pow(%s, 2)' % a(), '(%s).bit_length()' % a()])
         if c == 20:
             self.f('dict_use')
             return '%s.get(%s, %s)' % (self.expr('dict', d), self.expr(r.choice(['int', 'str']), d), a())
@@ -592,7 +592,9 @@ class FuncGen:
             self.emit('log([g() for g in %s])' % fs)
         elif c == 19 and self.r.random() < 0.5:
             self.f('early_return')
-            self.emit('if %s:' % self.expr('bool', 1))
+            # the condition always involves a parameter: a constant-true 'if ...: return' makes the rest of the function
+            # unreachable, and a lambda/def in unreachable code crashes the compiler (C43 finding, not C01's subject)
+            self.emit('if ((a0 is None) != %s):' % self.expr('bool', 1))
             self.ind += 1
             self.emit('return %s' % self.expr(self.ret_kind if self.in_nested == 0 else 'int', 2))
             self.ind -= 1
